@@ -117,6 +117,7 @@ def run(ctx):
             payload.update(extra)
         ctx.violation(payload)
 
+    f14_hits = []
     for i, (c, im, mo) in enumerate(zip(cases, impl, model)):
         tag = c[0]
         if mo.startswith("BADCASE"):
@@ -145,6 +146,13 @@ def run(ctx):
                     st["compile_error_predicted"] += 1
                 else:
                     violation("import-outcome", "the model predicts that the generated file is an error value as a whole (`poisoned`), the implementation does not report that", i)
+                continue
+            if ik == "C" and set(ib) <= set("0") and "1" in v and '$defs' in info[i]:
+                # C13-F14: an unsatisfiable DEFINITION (e.g. a required property whose schema is false) makes the whole
+                # imported file an error value although the definition is only referenced below items/properties, so
+                # instances that never reach it (e.g. []) are rejected. cue really does this (cue vet: #d1.c: disallowed).
+                st["definition_poisons_file_F14"] += 1
+                f14_hits.append(i)
                 continue
             if ik == "C":
                 st["schema_value_err_but_usable"] += 1
@@ -247,6 +255,8 @@ def run(ctx):
 
     for cls in sorted(dev_seen):
         ctx.known_finding(DEV_CLASSES.get(cls, "class " + cls))
+    if f14_hits:
+        ctx.known_finding("C13-F14 an unsatisfiable definition under $defs turns the whole imported file into an error value: instances that never reach the definition are rejected (%d generated documents, e.g. case %d)" % (len(f14_hits), f14_hits[0]))
     if st["import_panics"] or st["verdict_panics"]:
         ctx.known_finding("C13-F12 evaluator panic `errors.Error is *errors.wrapped, not *adt.ValueError` in adt.(*nodeContext).disjunctError on an imported schema (crash of the pinned tree, belongs to C02)")
 
